@@ -28,6 +28,8 @@ class XmlTree:
 
 
 def build(S):
+    from contracts import dispatch
+    dispatch.prove_dispatch(S, which=('load',))
     S.function(REL, 'Atoms.load_cml')
 
     def run():
